@@ -224,7 +224,9 @@ def max_tries_shape(tree):
     default = default_of(fn, "max_tries")
     raises = [ast.unparse(n.test) for n in ast.walk(fn) if isinstance(n, ast.If) and any(isinstance(s, ast.Raise) for s in n.body)]
     whiles = [ast.unparse(n.test) for n in ast.walk(fn) if isinstance(n, ast.While)]
-    return default, raises, whiles
+    bound = [ast.unparse(n.value) for n in ast.walk(fn) if isinstance(n, ast.Assign) and len(n.targets) == 1
+             and isinstance(n.targets[0], ast.Name) and n.targets[0].id == "max_tries"]
+    return default, raises, whiles, bound
 
 
 def relop_table(tree):
@@ -320,8 +322,8 @@ def run():
 
     st = parse(SRC / "sympytools.py")
     item("max_tries", lambda: max_tries_shape(st),
-         lambda v: f"def maxTriesDefault : Nat := {int(v[0])}\ndef maxTriesRaise : List String := {llist(map(lstr, v[1]))}\ndef maxTriesWhile : List String := {llist(map(lstr, v[2]))}",
-         "def maxTriesDefault : Nat := 0\ndef maxTriesRaise : List String := []\ndef maxTriesWhile : List String := []")
+         lambda v: f"def maxTriesDefault : String := {lstr(v[0])}\ndef maxTriesRaise : List String := {llist(map(lstr, v[1]))}\ndef maxTriesWhile : List String := {llist(map(lstr, v[2]))}\ndef maxTriesBound : List String := {llist(map(lstr, v[3]))}",
+         "def maxTriesDefault : String := \"?\"\ndef maxTriesRaise : List String := []\ndef maxTriesWhile : List String := []\ndef maxTriesBound : List String := []")
 
     tr = parse(SRC / "transformer.py")
     item("unit_caught", lambda: caught_exceptions(tr),
